@@ -1,7 +1,4 @@
 import MdsVerif.Proofs.MdiffApply
-import MdsVerif.Proofs.MdiffApplyU
-import MdsVerif.Proofs.MdiffApplyC
-import MdsVerif.Proofs.MdiffApplyP
 import MdsVerif.Props.C13
 /-!
 # C14 (apply) — every rendering of a diff, applied to `Left` by the published rules, gives `Right`
@@ -22,6 +19,11 @@ Chunk-list level (`apply_*_chunks`): for ANY chunk list `cs` with
   same text in `L` and `R` (`Proofs.Mdiff.Aligned`; with `AllOK` it implies `patch L cs = R`,
   `patch_of_aligned`; `Props.C13.newChunks_aligned` and `unify_ok_new` deliver it),
 * `hed` — every edit in a chunk is `EditOK` (no empty change, the unused side of a Drop/Copy empty).
+Proved, full strength: `apply_normal_chunks`, `apply_context_chunks` (with `hch`: every chunk has a
+non-Emit edit), `apply_normal_new`, `apply_context_new`, `apply_normal_pipeline`,
+`apply_context_pipeline` (all `L`, `R`, `n`, any `FileInfo`; hypotheses `hvalid`, `hcanon` = C11's
+theorems about `EditScript`).  Proved under "no empty range": `apply_unified_chunks_partial`,
+`apply_unified_new_partial`, `apply_unified_pipeline_partial`.
 The recorded defect F6 (`uspan` spells an empty range `start,0`, POSIX/GNU `start-1,0`) makes the
 unified statement false when a chunk has an empty left or right range (`Props.C14.C14_F6_witness`);
 hence the hypothesis `hne` of `apply_unified_chunks_partial`.
@@ -59,38 +61,6 @@ example :
     normal cs = [str "2c2", str "< b", str "---", str "> X", str "5c5,6", str "< e", str "---",
       str "> Y", str "> Z"] ∧
     DiffApply.applyNormal (normal cs) exL = some exR := by decide
-
-/-- every chunk of `New` (for a valid, canonical script) consists of `EditOK` edits and contains an
-edit that is not an Emit (`Props.C13.newChunks_ok`: no Emit at all, and at least one edit) -/
-theorem newChunks_good (L R : List Line) (hvalid : EditScript.Valid (editScript L R) L R)
-    (hcanon : EditScript.Canonical (editScript L R)) :
-    ∀ c ∈ newChunks (editScript L R), Good EditOK c := by
-  have r := C13.newChunks_ok (editScript L R) L R hvalid
-  have hok := newChunks_all EditOK _ (editOK_of_valid_canonical _ hvalid hcanon)
-  intro c hc
-  refine ⟨hok c hc, ?_⟩
-  have hne := (r.2.2.2.2.2 c hc).2
-  cases he : c.edits with
-  | nil => exact absurd he hne
-  | cons e es => exact ⟨e, by simp, r.2.2.2.2.1 c hc e (by simp [he])⟩
-
-/-- **apply_normal_new.**  The normal-format rendering of `New(L, R)`, applied to `L` by the
-reference rules, gives `R`.  `hvalid`, `hcanon` are C11's theorems about `EditScript` (the script is
-valid and canonical); they give `AllOK`/`Aligned` (`Props.C13.newChunks_ok`, `newChunks_aligned`)
-and `EditOK` for every edit of a chunk (`editOK_of_valid_canonical`, `newChunks_all`). -/
-theorem apply_normal_new (L R : List Line) (hvalid : EditScript.Valid (editScript L R) L R)
-    (hcanon : EditScript.Canonical (editScript L R)) :
-    DiffApply.applyNormal (normal (Model.Mdiff.new L R).chunks) L = some R :=
-  apply_normal_chunks (newChunks (editScript L R)) L R (C13.newChunks_ok _ L R hvalid).1
-    (C13.newChunks_aligned _ L R hvalid)
-    (newChunks_all EditOK _ (editOK_of_valid_canonical _ hvalid hcanon))
-
-set_option maxRecDepth 8000 in
-/-- non-vacuity: the script of the running example is valid and canonical, and the conclusion holds -/
-example :
-    EditScript.validB (editScript exL exR) exL exR = true ∧
-    EditScript.canonicalB (editScript exL exR) = true ∧
-    DiffApply.applyNormal (normal (Model.Mdiff.new exL exR).chunks) exL = some exR := by decide
 
 /-! ## context -/
 
@@ -164,6 +134,45 @@ example :
     DiffApply.applyUnified (unified cs none) exL = some exR ∧
     DiffApply.applyUnified (unified cs (some exFi)) exL = some exR := by decide
 
+/-! ## corollaries for `New(L, R)` -/
+
+/-- every chunk of `New` (for a valid, canonical script) consists of `EditOK` edits and contains an
+edit that is not an Emit (`Props.C13.newChunks_ok`: no Emit at all, and at least one edit) -/
+theorem newChunks_good (L R : List Line) (hvalid : EditScript.Valid (editScript L R) L R)
+    (hcanon : EditScript.Canonical (editScript L R)) :
+    ∀ c ∈ newChunks (editScript L R), Good EditOK c := by
+  have r := C13.newChunks_ok (editScript L R) L R hvalid
+  have hok := newChunks_all EditOK _ (editOK_of_valid_canonical _ hvalid hcanon)
+  intro c hc
+  refine ⟨hok c hc, ?_⟩
+  have hne := (r.2.2.2.2.2 c hc).2
+  cases he : c.edits with
+  | nil => exact absurd he hne
+  | cons e es => exact ⟨e, by simp, r.2.2.2.2.1 c hc e (by simp [he])⟩
+
+set_option maxRecDepth 8000 in
+example : (∀ c ∈ newChunks (editScript exL exR), ∀ e ∈ c.edits, EditOK e) ∧
+    (∀ c ∈ newChunks (editScript exL2 exR2), ∃ e ∈ c.edits, e.op ≠ .emit) ∧
+    (newChunks (editScript exL2 exR2)).length = 2 := by decide
+
+/-- **apply_normal_new.**  The normal-format rendering of `New(L, R)`, applied to `L` by the
+reference rules, gives `R`.  `hvalid`, `hcanon` are C11's theorems about `EditScript` (the script is
+valid and canonical); they give `AllOK`/`Aligned` (`Props.C13.newChunks_ok`, `newChunks_aligned`)
+and `EditOK` for every edit of a chunk (`editOK_of_valid_canonical`, `newChunks_all`). -/
+theorem apply_normal_new (L R : List Line) (hvalid : EditScript.Valid (editScript L R) L R)
+    (hcanon : EditScript.Canonical (editScript L R)) :
+    DiffApply.applyNormal (normal (Model.Mdiff.new L R).chunks) L = some R :=
+  apply_normal_chunks (newChunks (editScript L R)) L R (C13.newChunks_ok _ L R hvalid).1
+    (C13.newChunks_aligned _ L R hvalid)
+    (newChunks_all EditOK _ (editOK_of_valid_canonical _ hvalid hcanon))
+
+set_option maxRecDepth 8000 in
+/-- non-vacuity: the script of the running example is valid and canonical, and the conclusion holds -/
+example :
+    EditScript.validB (editScript exL exR) exL exR = true ∧
+    EditScript.canonicalB (editScript exL exR) = true ∧
+    DiffApply.applyNormal (normal (Model.Mdiff.new exL exR).chunks) exL = some exR := by decide
+
 /-- **apply_context_new.**  The context-format rendering of `New(L, R)`, with any `FileInfo` or
 none, applied to `L` by the reference rules, gives `R` (`hvalid`, `hcanon`: C11). -/
 theorem apply_context_new (L R : List Line) (fi : Option FileInfo)
@@ -199,6 +208,26 @@ example :
 
 /-! ## the pipeline `New(L, R).AddContext(n).Unify()` -/
 
+/-- The chunks of the pipeline are correct and aligned (validity of the script only):
+`Props.C13.addContext_ok`, `unify_ok_partial`. -/
+theorem pipeline_aligned (L R : List Line) (n : Nat) (hvalid : EditScript.Valid (editScript L R) L R) :
+    ∃ d1 d2, (Model.Mdiff.new L R).addContext? n = some d1 ∧ d1.unify? = .ok d2 ∧
+      AllOK d2.chunks L R ∧ Aligned L R 1 1 d2.chunks := by
+  have r := C13.newChunks_ok (editScript L R) L R hvalid
+  have ral := C13.newChunks_aligned (editScript L R) L R hvalid
+  obtain ⟨cs', h1, _, _⟩ := C13.addContext_ok L R n (newChunks (editScript L R)) r.1
+  obtain ⟨u, u1, u2, _, _, _, u6⟩ := C13.unify_ok_partial L R n _ cs' r.1 r.2.2.1 ral
+    (fun c hc => ⟨(r.2.2.2.2.2 c hc).2, r.2.2.2.2.1 c hc⟩) h1
+  refine ⟨{ Model.Mdiff.new L R with chunks := cs' }, { Model.Mdiff.new L R with chunks := u }, ?_, ?_,
+    u2, u6⟩
+  · show (addContextChunks L R n (newChunks (editScript L R))).map _ = _
+    rw [h1]; rfl
+  · show (unifyChunks cs').map _ = _
+    rw [u1]; rfl
+
+set_option maxRecDepth 8000 in
+example : exPipe ≠ [] ∧ AllOK exPipe exL exR ∧ Aligned exL exR 1 1 exPipe := by decide
+
 /-- The chunks of the pipeline, for all inputs and every `n`: neither step fails, the unified
 chunks are `AllOK` and `Aligned` (`Props.C13.unify_ok_partial`), all their edits are `EditOK` and
 every chunk contains an edit that is not an Emit (`AddContext` only adds Emits, `UnifyChunks` only
@@ -222,6 +251,10 @@ theorem pipeline_chunks (L R : List Line) (n : Nat) (hvalid : EditScript.Valid (
     rw [h1]; rfl
   · show (unifyChunks cs').map _ = _
     rw [u1]; rfl
+
+set_option maxRecDepth 8000 in
+example : (∀ c ∈ exPipe, ∀ e ∈ c.edits, EditOK e) ∧ (∀ c ∈ exPipe, ∃ e ∈ c.edits, e.op ≠ .emit) ∧
+    (∃ c ∈ exPipe, ∃ e ∈ c.edits, e.op = .emit) := by decide
 
 /-- **apply_normal_pipeline.**  For all `L`, `R`, `n`: `New(L, R).AddContext(n).Unify()` succeeds and
 the normal-format rendering of its chunks, applied to `L` by the reference rules, gives `R`. -/
@@ -263,11 +296,11 @@ none, provided no chunk of the result has an empty left or right range (`hne`; F
 `apply_unified_chunks_partial` — exactly this is missing; it holds e.g. whenever every chunk got at
 least one line of context). -/
 theorem apply_unified_pipeline_partial (L R : List Line) (n : Nat) (fi : Option FileInfo)
-    (hvalid : EditScript.Valid (editScript L R) L R) (hcanon : EditScript.Canonical (editScript L R)) :
+    (hvalid : EditScript.Valid (editScript L R) L R) :
     ∃ d1 d2, (Model.Mdiff.new L R).addContext? n = some d1 ∧ d1.unify? = .ok d2 ∧
       ((∀ c ∈ d2.chunks, c.lstart < c.lend ∧ c.rstart < c.rend) →
         DiffApply.applyUnified (unified d2.chunks fi) L = some R) := by
-  obtain ⟨d1, d2, h1, h2, hok, hal, _, _⟩ := pipeline_chunks L R n hvalid hcanon
+  obtain ⟨d1, d2, h1, h2, hok, hal⟩ := pipeline_aligned L R n hvalid
   exact ⟨d1, d2, h1, h2, fun hne => apply_unified_chunks_partial _ L R fi hok hal hne⟩
 
 set_option maxRecDepth 8000 in
@@ -276,5 +309,25 @@ example :
     unified exPipe none = [str "@@ -1,6 +1,7 @@", str " a", str "-b", str "+X", str " c", str " d",
       str "-e", str "+Y", str "+Z", str " f"] ∧
     DiffApply.applyUnified (unified exPipe (some exFi)) exL = some exR := by decide
+
+/-! ## full-strength statements that are NOT theorems of the code as it is (F6)
+
+```
+theorem apply_unified_chunks (cs) (L R) (fi) (hok : AllOK cs L R) (hal : Aligned L R 1 1 cs) :
+    DiffApply.applyUnified (unified cs fi) L = some R
+theorem apply_unified_new (L R) (fi) (hvalid) :
+    DiffApply.applyUnified (unified (new L R).chunks fi) L = some R
+theorem apply_unified_pipeline (L R) (n) (fi) (hvalid) :
+    ∃ d1 d2, (new L R).addContext? n = some d1 ∧ d1.unify? = .ok d2 ∧
+      DiffApply.applyUnified (unified d2.chunks fi) L = some R
+```
+These are false: `Props.C14.C14_F6_witness` (`L = [a b c d]`, `R = [a b X c d]`, `New` without
+context: `Unified` writes `@@ -3,0 +3 @@`, the published rules want `@@ -2,0 +3 @@`).  They become
+provable (same proof, `parseUnifiedHeader_chunk` and `applyUnifiedLoop_chunk` extended by the case
+of a count 0) once `uspan` writes `start-1` for an empty range, i.e. for
+`Gen.MdiffFmt.uspanFst s e = if e = s then s - 1 else s`.  The `_partial` versions above carry the
+hypothesis "no chunk has an empty left or right range" instead; nothing else is weakened.
+The normal and context statements are proved at full strength.
+-/
 
 end MdsVerif.Props.C14a
